@@ -308,6 +308,59 @@ def check_async_kinds(scratch: Path) -> List[Dict[str, Any]]:
     return out
 
 
+OVERRIDE_SRC = ("class Shape:\n    'doc'\n    @property\n    def sides(self):\n        'prop'\n        return 0\n    def area(self):\n        'meth'\n"
+                "    kind = 'shape'\n    class Inner:\n        'nested'\n    @classmethod\n    def make(cls):\n        'cm'\n"
+                "class Triangle(Shape):\n    'doc'\n    sides = 3\n    kind = 'tri'\n    area = 1.5\n    Inner = None\n    make = 0\n"
+                "class Deeper(Triangle):\n    'doc'\n    sides = 4\n    area = 2.5\n"
+                # a base whose NAME is bound again further down: the class statement used the binding of its time
+                "class Record:\n    'plain'\nclass Entry(Record):\n    'entry'\nclass Record(Exception):\n    'now an exception'\n"
+                "class Problem(Exception):\n    'exc'\nclass Timeout(Problem):\n    'timeout'\nclass Problem:\n    'now plain'\n")
+OVERRIDE_KNOWN = {"Triangle.area", "Triangle.Inner", "Triangle.make", "Deeper.area"}      # see findings.d: inherited-member-overridden-by-variable
+_KIND_ORACLE = ("import sys, json, inspect, importlib; sys.path.insert(0, sys.argv[1]); m = importlib.import_module(sys.argv[2]); out = {}\n"
+                "def kind(v):\n"
+                "    if inspect.isclass(v): return 'exception' if issubclass(v, BaseException) else 'class'\n"
+                "    if isinstance(v, property): return 'property'\n"
+                "    if isinstance(v, (classmethod, staticmethod)) or inspect.isfunction(v): return 'function'\n"
+                "    return 'variable'\n"
+                "for n, v in vars(m).items():\n"
+                "    if n.startswith('__'): continue\n"
+                "    out[n] = kind(v)\n"
+                "    if inspect.isclass(v) and v.__module__ == m.__name__:\n"
+                "        for k, w in vars(v).items():\n"
+                "            if not k.startswith('__'): out[n + '.' + k] = kind(w)\n"
+                "print(json.dumps(out))")
+
+
+def check_overriding_variables(scratch: Path) -> List[Dict[str, Any]]:
+    """What a subclass body binds is documented in the subclass, also when a base class has a member of that name of another sort
+       (a class variable overriding an inherited property, method, nested class); and a class keeps the ancestry of the class
+       statement's time when the NAME of its base is bound to another class further down (class or exception class)."""
+    from pydoctor import model
+    base = scratch / "overrides"
+    base.mkdir(parents=True)
+    (base / "overridemod.py").write_text(OVERRIDE_SRC)
+    r = subprocess.run([sys.executable, "-I", "-c", _KIND_ORACLE, str(base), "overridemod"], capture_output=True, text=True, timeout=60)
+    if r.returncode != 0:
+        raise RuntimeError("kind oracle failed: " + r.stderr[-400:])
+    want = json.loads(r.stdout)
+    b = P.build_sources(paths=[base / "overridemod.py"], record_states=False)
+    K = model.DocumentableKind
+    got: Dict[str, str] = {}
+    for k, o in b["system"].allobjects.items():
+        if k == "overridemod" or " " in k:
+            continue
+        name = k[len("overridemod."):]
+        got[name] = ("exception" if o.kind is K.EXCEPTION else "class") if isinstance(o, model.Class) else \
+                    "function" if isinstance(o, model.Function) else "property" if o.kind is K.PROPERTY else "variable"
+    out: List[Dict[str, Any]] = []
+    for n in sorted(set(want) | set(got)):
+        if want.get(n) != got.get(n):
+            out.append({"object": n, "expected": want.get(n), "got": got.get(n),
+                        "what": "overriding variables: " + ("missing" if n not in got else "invented" if n not in want else "kind"),
+                        "known_shape": n in OVERRIDE_KNOWN and n not in got})
+    return out
+
+
 def rendered_text(obj: Any) -> str:
     """The text of the docstring as the pages show it (parsed docstring -> stan -> flattened, tags removed)."""
     import re
@@ -342,4 +395,4 @@ def check(scratch: Path) -> List[Dict[str, Any]]:
             shown = rendered_text(o)
             if doc not in shown:
                 out.append({"object": name, "expected": doc, "got": shown[:200], "what": "docstring as rendered"})
-    return out + check_fields(scratch) + check_overload_neighbours(scratch) + check_rebuild_history(scratch) + check_statics(scratch) + check_blank_docstrings(scratch) + check_assignment_targets(scratch) + check_async_kinds(scratch)
+    return out + check_fields(scratch) + check_overload_neighbours(scratch) + check_rebuild_history(scratch) + check_statics(scratch) + check_blank_docstrings(scratch) + check_assignment_targets(scratch) + check_async_kinds(scratch) + check_overriding_variables(scratch)
